@@ -41,56 +41,96 @@ ID = "C11"
 LEVEL = "proof"
 ENGINES = ["lean-model", "purediff", "kopfsim"]
 LEVEL_TEXT = (
-    "Lean theorems, for all limits, all scripts of raised kinds/delays/durations, all cycle times and "
-    "restarts anywhere (induction over the script): temporary/default-mode errors are retried with the "
-    "requested delay/backoff unless a limit is provably reached, permanent and permanent-mode errors end "
-    "the handler, ignored-mode errors count as success, every later attempt starts no sooner than the "
-    "merge time plus the delay, at most N invocations with retries=N, no invocation at runtime >= T and "
-    "an awake cycle there records a failure, restarts are invisible to the persisted record; the "
-    "in-memory loops of activities/daemons/timers are proved to be instances of the same fold. "
-    "timeout_failed_for_good is proved for batches merged at once (lag 0) and scripts without "
-    "pending-children outcomes, the exact guard under which the code guarantees it. For timers the bounds are "
-    "theorems per retry series and over the timer's whole life: a new series starts only after a success, a "
-    "series that failed for good is the last thing the timer ever invokes (finding C11-F1, repaired by af4d77a; "
-    "its witness stays in the corpus as a regression case). Tied to the code by "
-    "a grid on the real execute_handler_once/with_outcome (complete in thorough) and closed-loop "
-    "sequences on the real processing cycle, kopf.execute, run_activity, _daemon, _timer.")
+    "Lean theorems by induction over the script (no bounds). Per execution, for all limits/records/times: "
+    "temporary and default-mode errors are retried with exactly the requested delay/backoff unless a limit "
+    "is provably reached, permanent(-mode) errors end the handler, ignored-mode errors count as success, the "
+    "function is not called iff a limit is reached. In EVERY environment (stale event bodies, lost patches, "
+    "kills between the handler call and the patch, restarts anywhere): each invocation is within the limits "
+    "of the record version it was shown and the gate is respected on that version. With record continuity "
+    "(every cycle sees what the previous one stored; restarts between cycles) — named _partial, guard exact, "
+    "four Lean witnesses show the whole-history clauses are false without it (inherent to call-then-patch, "
+    "not a kopf defect; the witnesses are replayed on the real code): every later attempt starts no sooner "
+    "than merge time + delay, at most N invocations, none at runtime >= T, finished handlers never run. "
+    "Progress: a due handler within limits IS invoked with the next retry number; an in-memory loop whose "
+    "function keeps failing ends with a failure record (retries=N; timeout=T with calls >= 1 tick). "
+    "In-memory loops (activities, daemons, timer series) are proved to be instances of the fold; timers over "
+    "their whole life: whole-series refinement to the loop, timeout and spacing laws, a failed series is the "
+    "last (derived from the gate, finding C11-F1 repaired by af4d77a). Sub-handlers: the parent's retry delay "
+    "is the earliest remaining delay of its unfinished children. timeout_failed_for_good_partial (never "
+    "sleeps past T) holds under a sufficient guard (batch merged at once, no pending children), both halves "
+    "shown necessary by witnesses. Tied to the code by a grid on the real execute_handler_once/with_outcome "
+    "(complete in thorough) and closed-loop sequences on the real processing cycle (incl. stale/lost/kill "
+    "steps), kopf.execute, run_activity, _daemon, _timer.")
 TIE = ("D: bounded-exhaustive grid on the real execute_handler_once / execute_handlers_once / with_outcome "
-       "(exhaustive in thorough); S: closed-loop attempt sequences under virtual time with restarts "
-       "(change handlers, handler pairs, sub-handlers via kopf.execute, run_activity, _daemon, _timer)")
+       "(exhaustive in thorough); S: closed-loop attempt sequences under virtual time with restarts, stale "
+       "event bodies, lost patches and kills between call and patch (change handlers, handler pairs), "
+       "sub-handlers via kopf.execute (incl. the children's delay), run_activity, _daemon, _timer (whole life, "
+       "idle iterations included)")
 THEOREMS = [("Kopf.Props.C11", "Kopf.C11." + n) for n in [
-    "temp_retried", "temp_retried_unlimited", "perm_final", "ignored_done", "arbitrary_by_mode",
-    "children_retry", "limits_refuse", "final_finished", "finished_never_runs",
-    "delay_respected", "delay_respected_succ", "final_is_last",
-    "retries_bound", "retries_bound_scratch", "retries_bound_tight",
-    "timeout_bound", "timeout_refuses", "timeout_failed_for_good_partial", "timeout_sleep_past_witness",
+    # one execution
+    "temp_retried", "temp_retried_unlimited", "perm_final", "ignored_done", "arbitrary_by_mode", "limits_refuse",
+    # every environment
+    "env_invocation_within_seen_limits", "env_gate_respected", "run_is_continuous_env",
+    "kill_mid_exceeds_retries_witness", "stale_view_breaks_delay_witness", "lost_patch_exceeds_timeout_witness",
+    "stale_view_reruns_finished_witness",
+    # with record continuity
+    "finished_never_runs_partial", "delay_respected_partial", "delay_respected_succ_partial", "final_is_last_partial",
+    "retries_bound_partial", "retries_bound_scratch_partial", "retries_bound_tight",
+    "timeout_bound_partial", "timeout_refuses", "timeout_failed_for_good_partial", "timeout_sleep_past_witness",
+    "timeout_sleep_past_lag_witness", "restart_invariant",
+    # progress
+    "due_is_invoked", "retried_as_event", "loop_ends_failed_retries", "loop_ends_failed_timeout",
+    # in-memory loops, timers, sub-handlers
+    "loop_is_run", "loop_retries_bound", "loop_timeout_bound", "loop_delay_respected",
     "timer_failed_never_runs", "timer_failure_is_last", "timer_retry_lt", "timer_retry_steps",
-    "timer_invocations_bound", "timer_series_is_loop",
-    "restart_roundtrip", "restart_invariant", "loop_is_run", "loop_retries_bound", "loop_timeout_bound",
-    "loop_delay_respected",
+    "timer_invocations_bound", "timer_series_is_loop", "timer_timeout_bound", "timer_delay_respected",
+    "children_delay_is_earliest",
 ]]
 RULE = ("grid: errors mode x default mode x timeout {None,0,10s,70s} x runtime band (before / look-ahead "
         "boundary -1q / boundary / T-1q / T / after) x call duration x retries {None,0,1,4} x stored retries "
         "{0,1,3,4,5} x raised kind with delay {None,0,2s,-2s} / backoff {None,0,2s}, plus a gate grid over "
-        "record shapes (fresh / delayed past / == now / future / success / failure); histories: random limits, "
-        "scripts of (raised kind, delay, duration), wake policy per cycle (exact / early / late / at once / "
-        "restart with downtime), six driver kinds; a case is distinct & non-trivial when its abstraction "
-        "(limits class, raised kind, which branch the outcome took, gate) is new and not the plain-success path")
+        "record shapes (fresh / delayed past / == now / future / success / failure), plus a day grid (ages around "
+        "and beyond whole days, timeouts of 0.5 s .. 2 days, delays > 1 day; always complete); histories: random "
+        "limits, scripts of (raised kind, delay, duration), wake policy per cycle (exact / early / late / at once / "
+        "restart with downtime), for change handlers and pairs also environment steps (stale body k versions "
+        "back / lost patch / kill between call and patch), 30 % long flavour (day-scale times, fractional "
+        "timeouts), six driver kinds; a case is distinct & non-trivial when its abstraction (limits class, raised "
+        "kind, which branch the outcome took, gate) is new and not the plain-success path")
 TRUSTED = [
     "SimLoop virtual time + wall clock shim (harness/sim/simloop.py); times are multiples of 2**-6 s so that "
     "float seconds, microsecond datetimes and ISO strings are exact",
     "the stub handler stands for user code: it raises the scripted exception after sleeping the scripted duration",
     "the closed loop around the change handlers re-implements the 12 lines of process_changing_cause that "
     "call State.from_storage/with_purpose/with_handlers/execute_handlers_once/with_outcomes/store and applies "
-    "the produced merge-patch to a dict body (no API server); when the next cycle happens is the adversary's choice",
+    "the produced merge-patch to a dict body (no API server); when the next cycle happens, which version of "
+    "the body it is shown and whether its patch lands is the adversary's choice",
 ]
 ASSUMPTIONS = [
     "asyncio.CancelledError and non-Exception BaseExceptions escalate out of execute_handler_once and are not "
     "outcomes (out of the property's scope)",
     "kopf has no per-invocation timeout: `timeout=` is only checked before a call and in the look-ahead",
-    "a timer starts a new retry series after every finished one (success or failure): the bounds are per series",
+    "a timer starts a new retry series only after a succeeded one; a series that failed for good is the last "
+    "thing the timer invokes (af4d77a); the bounds are per series and, through timer_invocations_bound, per life",
     "the spacing guarantee is relative to the moment the outcome was merged (now of with_outcome), which is "
     "not earlier than the end of the call",
+    "record continuity is a GUARD of the whole-history theorems named _partial (delay_respected, retries_bound, "
+    "timeout_bound, finished_never_runs, final_is_last): every cycle reads the record stored by the previous one "
+    "and restarts/kills happen after the cycle's patch was applied. Under a stale event body, a lost patch or a "
+    "kill between the handler call and the patch the handler is re-invoked on the record it is shown (N+1 "
+    "invocations, immediate re-invocation, `started` never stored): proved by four witnesses, replayed on the "
+    "real code (corpus 40-43); inherent to a non-transactional call-then-patch, not recorded as a kopf defect",
+    "timeout_failed_for_good_partial ('the handler never sleeps past its timeout') is proved under the sufficient "
+    "guard: the batch is merged at once (lag 0) and the handler is not a parent waiting for sub-handlers; each "
+    "half is necessary (timeout_sleep_past_witness: HandlerChildrenRetry has no look-ahead; "
+    "timeout_sleep_past_lag_witness: the look-ahead is computed when the call ends, `delayed` when the whole batch "
+    "is merged); the failure is then recorded at the first cycle after `delayed`; no invocation starts after T "
+    "in any case. The oracle checks the clause on the real code exactly under that guard",
+    "one monotone clock: now = basetime + loop.time() with basetime = utcnow() - loop.time(); clock skew or steps "
+    "between operator instances (before/after a restart) are outside the model and the harness",
+    "lifecycles other than all_at_once may skip an awake handler in a cycle: for the safety theorems that is a "
+    "cycle that did not happen (its time is folded into the next dt); the harness uses all_at_once",
+    "'is recorded as failed for good' as an event is proved for the self-driven in-memory loops; for change "
+    "handlers it needs a next cycle, which is the environment's (C03's subject)",
 ]
 
 TPS = 1024
@@ -362,6 +402,12 @@ def oracle_sequence(l: dict, default_errors: str, default_backoff: int, events: 
     inv = [a for a in atts if a["invoked"]]
     for a in atts:
         bad += oracle_attempt(l, default_errors, default_backoff, a)
+    if not all(e.get("view", 0) == 0 and e.get("stored", True) for e in events):
+        # The environment showed the operator a stale body, lost a patch or killed it between the
+        # handler call and the patch: the whole-history clauses cannot hold for a non-transactional
+        # "call, then patch" (the handler is re-invoked on the record it is shown). What must still
+        # hold is checked per attempt above: limits and delays against the record that was shown.
+        return bad
     N, T = l.get("retries"), l.get("timeout")
     mode = effective_mode(l, default_errors)
     if N is not None and len(inv) > max(N, 0):
@@ -392,9 +438,18 @@ def oracle_sequence(l: dict, default_errors: str, default_backoff: int, events: 
         if need is not None and b["time"] < a["end"] + need:
             bad.append(("retried-too-soon", f"{x[0]} error at {a['end']} asked for {need} ticks, "
                         f"next attempt already at {b['time']}"))
-    # sleeping cycles must not be due; awake ones are attempts by construction
+    # sleeping cycles must not be due; awake ones are attempts by construction;
+    # "after which it is recorded as failed for good": when outcomes are merged at once and no
+    # sub-handlers are pending, a cycle at runtime >= T must find the handler finished
     last = None
+    plain = True
     for e in events:
+        if e["ev"] == "idle" and not e["done"] and T is not None and plain and atts and e["time"] - atts[0]["started"] >= T \
+                and last is not None:
+            bad.append(("sleeps-past-timeout", f"at {e['time']} the handler is {e['time'] - atts[0]['started']} ticks old "
+                        f"(timeout={T}), not finished and not due although nothing delayed the merge of its outcomes"))
+        if e["ev"] == "attempt":
+            plain = plain and e["merged"] == e["end"] and not (e["invoked"] and e["x"][0] == "children")
         if e["ev"] == "attempt":
             last = e
         elif e["ev"] == "idle" and last is not None and not e["done"]:
@@ -788,6 +843,20 @@ def _gen_history(rng: random.Random, kind: str, gen_limits: Any, gen_script: Any
         h["handlers"][0]["script"] = [s for _ in range(3) for s in gen_script(rng, False)][:12]
     if not inmem:
         h["plan"] = gen_plan(rng)
+    if kind in ("change", "pair") and rng.random() < 0.4:
+        # the adversarial environment: stale event bodies, lost patches, kills between call and patch
+        envs = []
+        for _ in range(12):
+            r = rng.random()
+            if r < 0.70:
+                envs.append({})
+            elif r < 0.80:
+                envs.append({"stored": False})
+            elif r < 0.90:
+                envs.append({"stored": False, "kill": rng.choice([0, 1, 64, 640, 6400])})
+            else:
+                envs.append({"view": rng.choice([1, 1, 2, 5])})
+        h["env"] = envs
     return h
 
 
@@ -819,6 +888,12 @@ class ChangeWorld:
         self.plan_i = 0
         self.over = False
         self.cycles = 0
+        # the adversarial environment (change / pair only): stored versions of the body, newest last,
+        # each with the number of stored writes every handler had made when it was current
+        self.env_steps: list[dict] = list(hist.get("env") or [])
+        self.writes = {h["id"]: 0 for h in hist["handlers"]}
+        self.versions: list[tuple[dict, dict]] = [(copy.deepcopy(self.body), dict(self.writes))]
+        self.kill: int | None = None
 
     def parent_fn(self) -> Any:
         world = self
@@ -827,7 +902,7 @@ class ChangeWorld:
             call = {"t": now_ticks(), "retry": kw["retry"], "exc": None}
             world.scripts["p"].calls.append(call)
             pre = {h.id: len(world.scripts[h.id].calls) for h in world.subs}
-            body = K.bodies.Body(world.body)
+            body = K.bodies.Body(world.view_body)
             st0 = K.progression.State.from_storage(body=body, storage=world.storage, handlers=world.subs)
             known = {h.id: (rec_of_state(st0[h.id]) if h.id in st0 else None) for h in world.subs}
             try:
@@ -851,14 +926,24 @@ class ChangeWorld:
                                         "patch": copy.deepcopy(dict(world.cause.patch))})
         return parent
 
-    def fetch(self, hid: str) -> dict | None:
-        got = self.storage.fetch(key=hid, body=K.bodies.Body(self.body))
+    def fetch(self, hid: str, body: dict | None = None) -> dict | None:
+        got = self.storage.fetch(key=hid, body=K.bodies.Body(self.body if body is None else body))
         return rec_of_stored(dict(got)) if got is not None else None
 
     async def cycle(self) -> float | None:
         """One processing cycle as in process_changing_cause. Returns state.delay (None when done)."""
+        envstep = self.env_steps[self.cycles] if self.cycles < len(self.env_steps) else {}
+        envstep = envstep or {}
         self.cycles += 1
-        body = K.bodies.Body(self.body)
+        view, stored = int(envstep.get("view", 0)), bool(envstep.get("stored", True))
+        self.kill = envstep.get("kill")
+        if self.sub:
+            view, stored, self.kill = 0, True, None
+        # the event body: the current version, or (stale) an older one
+        vbody, vwrites = self.versions[max(0, len(self.versions) - 1 - view)]
+        self.view_body = vbody if view else self.body
+        views = {hid: (self.writes[hid] - vwrites[hid]) if view else 0 for hid in self.writes}
+        body = K.bodies.Body(self.view_body)
         patch = K.patches.Patch()
         reason = K.causes.Reason.CREATE
         self.cause = cause = K.causes.ChangingCause(
@@ -881,21 +966,32 @@ class ChangeWorld:
             raise Escaped("execute_handlers_once/with_outcomes/store", e) from e
         if self.escaped is not None:
             raise Escaped("kopf.execute (sub-handlers)", self.escaped)
-        self.body = merge_patch(self.body, dict(patch))
-        self.record_batch(self.top, t, merged, pre, before, peeks, outcomes, {h.id: state[h.id].finished for h in self.top})
+        # the API server applies the merge-patch to the CURRENT object — unless the patch is lost
+        after = merge_patch(copy.deepcopy(self.body), dict(patch))
+        self.record_batch(self.top, t, merged, pre, before, peeks, outcomes,
+                          {h.id: state[h.id].finished for h in self.top}, after, views, stored)
+        if stored:
+            changed = after != self.body
+            self.body = after
+            for h in self.top:
+                if h.id in outcomes:
+                    self.writes[h.id] += 1
+            if changed:
+                self.versions.append((copy.deepcopy(self.body), dict(self.writes)))
         if self.sub:
             self.record_subcycles(merged)
         return None if state.done else state.delay
 
     def record_batch(self, handlers: list, t: int, merged: int, pre: dict, before: dict, peeks: dict,
-                     outcomes: dict, finished: dict) -> None:
+                     outcomes: dict, finished: dict, after: dict, views: dict, stored: bool) -> None:
         clock = t
         for h in handlers:
             calls = self.scripts[h.id].calls[pre[h.id]:]
             if h.id not in outcomes:
                 if calls:
                     self.events[h.id].append({"ev": "called-without-outcome", "time": t})
-                self.events[h.id].append({"ev": "idle", "time": t, "done": bool(finished[h.id])})
+                self.events[h.id].append({"ev": "idle", "time": t, "done": bool(finished[h.id]),
+                                          "view": views[h.id], "stored": stored})
                 continue
             o = outcomes[h.id]
             call = calls[0] if calls else None
@@ -905,8 +1001,8 @@ class ChangeWorld:
             self.events[h.id].append({
                 "ev": "attempt", "gate": t, "time": start, "started": before[h.id]["started"], "retry": before[h.id]["retries"],
                 "invoked": bool(call), "calls": len(calls), "retry_kwarg": call["retry"] if call else None,
-                "x": x, "dur": dur, "end": end, "merged": merged,
-                "out": out_json(o, bool(call), call["exc"] if call else None), "rec": self.fetch(h.id)})
+                "x": x, "dur": dur, "end": end, "merged": merged, "view": views[h.id], "stored": stored,
+                "out": out_json(o, bool(call), call["exc"] if call else None), "rec": self.fetch(h.id, after)})
             clock = end
 
     def record_subcycles(self, merged_parent: int) -> None:
@@ -967,9 +1063,18 @@ def run_change_history(hist: dict) -> dict:
     async def segment() -> None:
         while True:
             delay = await world.cycle()
-            if delay is None or world.plan_i >= len(hist["plan"]):
+            if world.kill is not None:
+                # killed between the handler call and the patch: everything in memory is gone
+                state["restart"] = int(world.kill) * Q
+                world.kill = None
+                if world.cycles >= 40:
+                    world.over = True
+                return
+            if (delay is None and world.cycles >= len(world.env_steps)) or world.plan_i >= len(hist["plan"]):
                 world.over = True
                 return
+            if delay is None:
+                delay = 0.0
             step = hist["plan"][world.plan_i]
             world.plan_i += 1
             remaining = tk(delay)
@@ -1146,9 +1251,10 @@ def abs_steps(events: list[dict]) -> list:
     steps = []
     for e in events:
         if e["ev"] == "attempt":
-            steps.append(["cycle_at", e["gate"], e["time"] - e["gate"], e["x"], e["dur"], e["merged"] - e["end"]])
+            steps.append(["cycle_at", e["gate"], e["time"] - e["gate"], e["x"], e["dur"], e["merged"] - e["end"],
+                          e.get("view", 0), e.get("stored", True)])
         elif e["ev"] == "idle":
-            steps.append(["cycle_at", e["time"], 0, ["ok"], 0, 0])
+            steps.append(["cycle_at", e["time"], 0, ["ok"], 0, 0, e.get("view", 0), e.get("stored", True)])
         elif e["ev"] == "restarted":
             steps.append(["restart_at", e["time"]])
     return steps
@@ -1161,7 +1267,7 @@ def impl_events(events: list[dict]) -> list:
             out.append({"ev": "attempt", "time": e["time"], "retry": e["retry"], "out": e["out"], "end": e["end"],
                         "merged": e["merged"], "rec": e["rec"]})
         else:
-            out.append({k: v for k, v in e.items() if k != "pi"})
+            out.append({k: v for k, v in e.items() if k not in ("pi", "view", "stored")})
     return out
 
 
@@ -1197,9 +1303,18 @@ def _history_checks(hist: dict, kind: str, db: int, env: dict) -> list[dict]:
             bad += [("retry-kwarg", "retry kwarg differs from the stored count") for e in events
                     if e["ev"] == "attempt" and e["invoked"] and e["retry_kwarg"] != e["retry"]]
             evs = [e for e in events if e["ev"] != "called-without-outcome"]
-            t0 = first["started"] if first["ev"] == "attempt" else first["time"]
-            checks.append({"hid": hid, "limits": l, "events": evs,
-                           "request": ["C11.runAbs", env, l, t0, abs_steps(evs)], "impl": impl_events(evs), "oracle": bad})
+            t0 = first["gate"] if first["ev"] == "attempt" else first["time"]
+            chk = {"hid": hid, "limits": l, "events": evs,
+                   "request": ["C11.runAbs", env, l, t0, abs_steps(evs)], "impl": impl_events(evs), "oracle": bad}
+            want = (hist.get("expect") or {}).get(hid)
+            if want is not None:
+                # a Lean witness replayed on the real code: it must show exactly what the theorem says
+                got = {"invocations": [[e["time"] - t0, e["retry"]] for e in evs if e["ev"] == "attempt" and e["invoked"]],
+                       "idle": [[e["time"] - t0, e["done"]] for e in evs if e["ev"] == "idle"]}
+                got = {k: got[k] for k in want}
+                if got != want:
+                    chk["tie"] = f"the witness {hist.get('witness')} does not reproduce on the code: expected {want}, observed {got}"
+            checks.append(chk)
         if kind == "sub":
             checks += sub_parent_checks(hist, obs)
     else:
@@ -1227,11 +1342,11 @@ def _history_checks(hist: dict, kind: str, db: int, env: dict) -> list[dict]:
                            # the model's loop has no idle executions: an observed one is a divergence
                            "impl": impl_events(events), "oracle": bad})
         if kind == "timer":
-            life = [e for series in obs["series"] for e in series if e["ev"] == "attempt"]
+            life = [e for series in obs["series"] for e in series]
             if life:
+                script = [[e["x"], e["dur"]] if e["ev"] == "attempt" else [["ok"], 0] for e in life]
                 checks.append({"hid": f"{hist['handlers'][0]['id']}#life", "limits": l, "events": [],
-                               "request": ["C11.timer", env, l, hist["interval"], bool(hist.get("sharp")), life[0]["time"],
-                                           [[e["x"], e["dur"]] for e in life]],
+                               "request": ["C11.timer", env, l, hist["interval"], bool(hist.get("sharp")), life[0]["time"], script],
                                "impl": impl_events(life), "oracle": oracle_timer_life(l, obs["series"])})
         if obs["stray_calls"]:
             checks.append({"hid": "stray", "limits": l, "events": [], "request": None, "impl": None,
@@ -1262,6 +1377,9 @@ def sub_parent_checks(hist: dict, obs: dict) -> list[dict]:
         for hid in subs:
             later = [s for s in obs["events"][hid] if s["ev"] == "attempt" and s["pi"] <= pi]
             recs.append(later[-1]["rec"] if later else None)
+        if all(r is not None for r in recs):
+            out.append({"hid": "p#children", "limits": {}, "events": [], "oracle": [],
+                        "request": ["C11.children", recs, e["end"]], "impl": e["x"]})
         pending = [r for r in recs if r is None or not (r["success"] or r["failure"])]
         if e["x"][0] == "ok":
             if pending:
@@ -1307,6 +1425,8 @@ def run_histories(ctx: Ctx, hists: list[dict], use_model: bool = True) -> None:
             ctx.count("history.invocations", len([e for e in atts if e["invoked"]]))
             ctx.count("history.restarts", len([e for e in chk["events"] if e["ev"] == "restarted"]))
             ctx.count("history.idle_cycles", len([e for e in chk["events"] if e["ev"] == "idle"]))
+            ctx.count("history.env", "stale=%d lost=%d" % (
+                len([e for e in chk["events"] if e.get("view", 0)]), len([e for e in chk["events"] if not e.get("stored", True)])))
             for e in atts:
                 ctx.count("history.branch", f"{e['x'][0] if e['invoked'] else 'refused'}→final={e['out']['final']} exc={e['out']['exc']}")
             seen = set()
@@ -1317,6 +1437,8 @@ def run_histories(ctx: Ctx, hists: list[dict], use_model: bool = True) -> None:
                 ctx.oracle_fail(f"history ({hist['kind']}, handler {chk['hid']}): {msg}",
                                 {"part": "history", "hist": hist, "handler": chk["hid"], "events": chk["impl"]},
                                 signature(shape, hist["kind"]))
+            if chk.get("tie"):
+                ctx.tie_fail(chk["tie"], {"part": "history", "hist": hist, "handler": chk["hid"]})
             if chk["request"] is not None:
                 reqs.append(chk["request"])
                 impls.append(chk["impl"])
